@@ -5,6 +5,7 @@ hashes, the real Merkle tree is required to BE the model's tree, and SimpleProof
 reassembly are brute-forced on the real code independently of the model."""
 import copy
 import os
+import shutil
 
 from .. import engine, tlc
 
@@ -37,8 +38,57 @@ def nontrivial(tr):
     return acc and rej
 
 
+def consensus_slice(ctx):
+    """Third mechanism of C17 (state.go addProposalBlockPart / enterPrecommit / enterCommit): the block a node holds as
+    ProposalBlock is the one decoded from the COMPLETE part set of the voted PartSetHeader.  The situations come from
+    PeerInput.tla (model-checked here for the situations in which the node still takes the round's proposal); in each,
+    the real ConsensusState gets a Byzantine proposal whose block has the voted header (same Block.Hash) around another
+    body, reassembles it, then receives +2/3 prevotes and +2/3 precommits for the genuine BlockID before any genuine
+    part: it must drop the unvoted body, wait for the genuine parts and only then commit (driver `peerinput`, oracle
+    keys unvoted-body-kept / committed-unvoted-body / crash / wedge)."""
+    from . import c08
+    quick = ctx.tier == 'quick'
+    cand = ['Propose', 'Round1', 'NewHeight', 'NewHeight2']
+    sits = sorted(ctx.rng.sample(cand, 2)) if quick else cand
+    d = tlc.scratch_copy([c08.tm.SPEC, c08.SPEC], prefix='vps')
+    try:
+        T = c08.write_mc(ctx, d, pairwise=False, sits=sits)
+        r = engine.tlc_check(ctx, d, 'MC_PeerInput.tla', 'MC_gen.cfg', name='PeerInput/late-parts-situations',
+                             workers=WORKERS, timeout=600 if quick else 1800, dump=True)
+        if r.violation:
+            ctx.inconclusive.append('spec property %s violated in PeerInput.tla (a defect of the specification, not a verdict '
+                                    'about the code)' % r.violation)
+        if not r.scratch or not os.path.exists(os.path.join(r.scratch, 'graph.dot')):
+            raise engine.Inconclusive('TLC produced no PeerInput state graph: %s' % (r.error or r.out[-1500:]))
+        setups, _pairs, _others = c08.read_plan(os.path.join(r.scratch, 'graph.dot'))
+        tlc.cleanup(r)
+    finally:
+        shutil.rmtree(d, ignore_errors=True)
+    if set(setups) != set(sits):
+        raise engine.Inconclusive('PeerInput state graph incomplete: situations %s' % sorted(setups))
+    traces = [{'id': 'lateparts-%s-%s' % (sit, sc), 'cfg': {'T': T},
+               'steps': [c08.setup_step(sit, setups), {'a': 'Scenario', 'args': [sc], 'post': {}}]}
+              for sit in sits for sc in ('same-header-other-body-late-parts', 'same-header-other-data-late-parts')]
+    rep = c08.run_parallel(ctx, traces, workers=min(len(traces), WORKERS), timeout=1500)
+    engine.collect(ctx, rep, traces, 'peerinput')
+    cnt = rep.get('counters', {})
+    ctx.cov['consensus_slice'] = {'situations': sits, 'behaviours': len(traces), 'scenario_messages': cnt.get('scenario_messages', 0),
+                                  'checks': rep.get('checks', 0)}
+    if not cnt.get('scenario_messages'):
+        ctx.inconclusive.append('consensus slice delivered no scenario message')
+    return traces, rep
+
+
 def run(ctx, replay=None):
     engine.build_go(ctx, ['partset'])
+    if replay is not None and any(s.get('a') in ('Setup', 'Scenario') for s in replay['trace'].get('steps') or []):
+        engine.build_go(ctx, ['csim', 'peerinput'])
+        rep = engine.run_driver(ctx, 'peerinput', [replay['trace']], timeout=900)
+        engine.collect(ctx, rep, [replay['trace']], 'peerinput')
+        ctx.cov['traces_validated_against_impl'] = 1
+        ctx.cov['states'] = ctx.cov['transitions'] = len(replay['trace']['steps'])
+        ctx.sample({'replayed': len(replay['trace']['steps'])})
+        return
     if replay is not None:
         rep = engine.run_driver(ctx, 'partset', [replay['trace']])
         engine.collect(ctx, rep, [replay['trace']], 'partset')
@@ -159,7 +209,9 @@ def run(ctx, replay=None):
 
     rep = engine.run_driver(ctx, 'partset', all_traces)
     engine.collect(ctx, rep, all_traces, 'partset')
-    ctx.cov['traces_validated_against_impl'] = rep['traces']
+    engine.build_go(ctx, ['csim', 'peerinput'])
+    ctraces, crep = consensus_slice(ctx)
+    ctx.cov['traces_validated_against_impl'] = rep['traces'] + len(ctraces)
     ctx.cov['evaluations'] = rep['checks']
     ctx.cov['distinct_nontrivial'] = sum(1 for t in all_traces if nontrivial(t))
     ctx.cov['rule'] = ('behaviours = edge-cover paths of PartSet state graphs (every transition once, each transition '
